@@ -30,12 +30,16 @@ RULE = (
     "structures (Dist without variable with hand-set `at`, weak var with a distribution, flagged vars without "
     "distribution, transformed variables via 7 entry points x 3 families, user-supplied nodes for every non-empty "
     "subset of the three totals x 3 scalar node kinds plus NON-SCALAR user nodes (vector Calc on values, pointwise log-lik "
-    "vector of a Dist node, vector and matrix Value constants), hyper-parameters as Value/Var) and DistRegBuilder models. Per program: "
+    "vector of a Dist node, vector and matrix Value constants), distributions from TFP's numpy substrate (alone and mixed "
+    "with jax-substrate ones, vector log-densities, per_obs on/off), hyper-parameters as Value/Var) and DistRegBuilder models. Per program: "
     "walk of the valuation lattice by single assignments on one live model (Euler circuit over 3 values per strong "
     "variable for canonical programs, star walk otherwise), under auto-update on, off+update(), and off + TARGETED "
     "update('_model_log_prob'|'_model_log_lik'|'_model_log_prior') (that total is compared, then update() and everything is "
     "compared). Assignment styles cycle per variable: new jax array, new numpy array, and 'fetch the stored numpy array, "
-    "edit it in place, assign the same object back'. Distinct outcome = "
+    "edit it in place, assign the same object back'. For canonical / special-structure / DistReg / shared-intermediate "
+    "programs a save/restore segment follows: Model.state is taken while nodes are pending (auto-update off, after an "
+    "assignment, before update()), the walk continues, the snapshot is loaded again, update(), everything is compared. "
+    "Distinct outcome = "
     "(skeleton, flag pattern, per_obs pattern, decomposable?, walk)."
 )
 ASSUMPTIONS = [
@@ -62,6 +66,7 @@ def bounds(tier):
         "flags": "all 4^nd combinations",
         "per_obs": "all subsets for canonical flags and nd<=2; 4 patterns per non-canonical flag combination for nd>=3" if tier == "quick" else "all subsets for every flag combination",
         "modes": ["auto_update", "manual update()", "targeted update(_model_log_*) then update() (canonical, special-structure, DistReg and shared-intermediate programs)"],
+        "save_restore": "2 rounds per targeted program: snapshot with pending nodes -> update -> another assignment -> load snapshot -> update",
         "assignment_styles": ["new jax array", "new numpy array", "in-place edit of the stored numpy array + re-assignment of the same object"],
         "rel_tol": REL,
     }
@@ -73,10 +78,10 @@ def _cost(p):
     n2 = int(np.prod(s2)) * sum(s - 1 for s in s2)
     if p["walk"] == "euler3":
         n = int(np.prod(sizes)) * sum(s - 1 for s in sizes)
-        return 2 * n + 2 * n2 + 4
+        return 2 * n + 2 * n2 + 10
     if p["walk"] == "euler2":
-        return 4 * n2 + 4
-    return (4 if p.get("targeted") else 2) * len(sizes) + 4  # modes (targeted counts twice) + build
+        return 4 * n2 + 10
+    return (4 if p.get("targeted") else 2) * len(sizes) + (10 if p.get("targeted") else 4)  # modes (targeted counts twice) + save/restore + build
 
 
 def units(tier, seed):
@@ -223,6 +228,45 @@ class Checker:
                                   f"{k} = {c} but {a} in {first[0]} which differs only in per_obs")
         return ref, got
 
+    def save_restore(self, b, p, names, sizes, state, live, table, cache):
+        """
+        Model.state taken while nodes are still pending (auto-update off, after an
+        assignment, before update()), the walk goes on, later the snapshot is loaded
+        again and update() must bring all totals to the snapshot's valuation.
+        """
+        m = b.model
+        m.auto_update = False
+        movable = [i for i, s in enumerate(sizes) if s > 1]
+        n = 0
+
+        def val():
+            return {x["name"]: G.f64(x["lattice"][s]) if s is not None else live[x["name"]] for x, s in zip(names, state)}
+
+        for r, i in enumerate(movable[:2]):
+            j = movable[(r + 1) % len(movable)]
+            style = ("jnp", "np")[r % 2]  # new objects only: an in-place edit would also edit the snapshot
+            _guard(b.assign_style, names[i]["target"], names[i]["lattice"][1], names[i]["via"], style)
+            state[i] = 1
+            snap = _guard(getattr, m, "state")
+            snap_state = list(state)
+            pending = sorted(k for k, ns in snap.items() if ns.outdated is True)
+            if not pending:
+                raise RuntimeError(f"save/restore: nothing was pending in the snapshot of {p['label']}")
+            _guard(m.update)
+            self.compare(b, p, val(), {"mode": "saverestore", "state": list(state), "step": 3 * r, "assigned": [names[i]["name"], 1], "style": style}, table, cache)
+            a = sizes[j] - 1 if state[j] != sizes[j] - 1 else 0
+            _guard(b.assign_style, names[j]["target"], names[j]["lattice"][a], names[j]["via"], style)
+            state[j] = a
+            _guard(m.update)
+            self.compare(b, p, val(), {"mode": "saverestore", "state": list(state), "step": 3 * r + 1, "assigned": [names[j]["name"], a], "style": style}, table, cache)
+            _guard(setattr, m, "state", snap)
+            state[:] = snap_state
+            _guard(m.update)
+            self.compare(b, p, val(), {"mode": "saverestore", "state": list(state), "step": 3 * r + 2, "restored_snapshot_with_pending": pending[:6], "style": style}, table, cache)
+            self.res.outcome("save-restore", len(pending) > 1)
+            n += 3
+        return n
+
     @staticmethod
     def _fam(p, label):
         for it in p["items"]:
@@ -288,6 +332,8 @@ class Checker:
                     ref, got = self.compare(b, p, valuation, ctx, table, cache)
                 if any(s not in (0, None) for s in state) and (p["walk"] != "star" or mode == "targeted"):
                     raise RuntimeError("walk did not return to the origin")
+            if p.get("targeted"):
+                n_trans += self.save_restore(b, p, names, sizes, state, live, table, cache)
         except LieselRaised as e:
             self.fail("walk", "raises", p, {"state": state}, f"liesel raised {e}")
             return
